@@ -589,6 +589,7 @@ type Contract struct {
 	Covers    []*Clause
 	GhostSets []*GhostSet
 	Opaque    map[string]bool
+	Iterates  string // name of the parameter holding a callback this function invokes zero or more times
 }
 
 // GhostSet: `ghost-set g[idx] = val when cond` (ghost code run at every return of the function)
@@ -659,7 +660,7 @@ func parseTags(s string) (props []string, label string, rest string) {
 }
 
 var clauseKW = map[string]bool{"requires": true, "ensures": true, "assigns": true, "pure": true, "trusted": true, "loop": true,
-	"at-call": true, "func": true, "spec": true, "ghost": true, "lemma": true, "axiom": true, "iterated": true, "signal": true, "fresh": true, "cover": true, "nobody": true, "ghost-set": true, "moninv": true, "opaque": true}
+	"at-call": true, "func": true, "spec": true, "ghost": true, "lemma": true, "axiom": true, "iterated": true, "signal": true, "fresh": true, "cover": true, "nobody": true, "ghost-set": true, "moninv": true, "opaque": true, "iterates": true}
 
 // LoadContractFile parses one contract file. pkgPath qualifies short function keys ("" for spec files,
 // whose keys are already fully qualified).
@@ -926,6 +927,9 @@ func (cs *ContractSet) LoadContractText(text, path, pkgPath string, external boo
 				}
 				gs.Val = ve
 				cur.GhostSets = append(cur.GhostSets, gs)
+			case "iterates":
+				cur.Iterates = strings.TrimSpace(rest)
+				cur.HasFrame = true
 			case "opaque":
 				if cur.Opaque == nil {
 					cur.Opaque = map[string]bool{}
